@@ -89,20 +89,19 @@ def to_DiGraph(program):
     for idx, op in enumerate(program.operations):
         dependencies = set(op['modes'])
 
-        if 'args' in op:
+        # operations without arguments have no 'args'/'kwargs' keys; do not add them to the program
+        args = op.get('args', [])
+        kwargs = op.get('kwargs', {})
 
-            for a in op['args']:
-                if isinstance(a, RegRefTransform):
-                    dependencies |= set(a.regrefs)
+        for a in args:
+            if isinstance(a, RegRefTransform):
+                dependencies |= set(a.regrefs)
 
-            for _, v in op['kwargs'].items():
-                if isinstance(v, RegRefTransform):
-                    dependencies |= set(v.regrefs)
-        else:
-            op['args'] = []
-            op['kwargs'] = {}
+        for _, v in kwargs.items():
+            if isinstance(v, RegRefTransform):
+                dependencies |= set(v.regrefs)
 
-        cmd = Command(name=op['op'], args=op['args'], kwargs=op['kwargs'], modes=tuple(op['modes']))
+        cmd = Command(name=op['op'], args=args, kwargs=kwargs, modes=tuple(op['modes']))
 
         for q in dependencies:
             # Add cmd to the grid to the end of the line r.ind.
